@@ -1063,3 +1063,70 @@ def unit_system_manager(h):
     if (s.GetValue(), s.GetUnit(), s.GetCategory()) != (1.5, "km", "depth"):
         return {"reproduced": True, "call": "ConvertScalarToCurrent(Scalar(1500.0, 'm', 'depth'))", "observed": repr(s), "expected": "Scalar(1.5, 'km', 'depth')"}
     return {"reproduced": False}
+
+
+@probe("c06_row")
+def c06_row(h):
+    """C06: a Scalar in the named unit vs the same amount built from Scalars in the component units"""
+    import re
+    from barril.units import Scalar
+    from barril.units.unit_database import UnitDatabase
+
+    db = UnitDatabase.GetSingleton()
+    U = db.unit_to_unit_info
+    sym = h["unit"]
+    if sym not in U:
+        return {"reproduced": False, "note": "unit not registered"}
+    qt = U[sym].quantity_type
+    base = db.GetBaseUnit(qt)
+
+    def k(u):
+        return U[u].tobase(1.0) - U[u].tobase(0.0)
+
+    if h.get("kind") == "prefix":
+        x, n = h["of"], h["power"]
+        got, exp = k(sym), k(x) * 10.0**n
+        bad = abs(got - exp) > 1e-9 * abs(exp)
+        return {"reproduced": bool(bad), "call": "Scalar(1, %r).GetValue(%r)" % (sym, base), "observed": got, "expected": "%g = 10^%d x Scalar(1, %r)" % (exp, n, x)}
+
+    def tokens(s):
+        out = []
+        parts = s.split("/")
+        for i, part in enumerate(parts):
+            if i == 0 and part == "1":
+                continue
+            for tok in part.split("."):
+                pre, atom, e = 1.0, tok, 1
+                if atom not in U:
+                    m = re.match(r"^(.*?)(\d+)$", atom)
+                    if m and m.group(1) in U:
+                        atom, e = m.group(1), int(m.group(2))
+                    else:
+                        m = re.match(r"^(\d+(?:\.\d+)?)(\D.*)$", atom)
+                        if not m:
+                            return None
+                        pre, atom = float(m.group(1)), m.group(2)
+                        m2 = re.match(r"^(.*?)(\d+)$", atom)
+                        if atom not in U and m2 and m2.group(1) in U:
+                            atom, e = m2.group(1), int(m2.group(2))
+                if atom not in U:
+                    return None
+                out.append((pre, atom, e if i == 0 else -e))
+        return out
+
+    def amount(s):
+        toks = tokens(s)
+        if toks is None or (len(toks) == 1 and toks[0][0] == 1.0 and toks[0][2] == 1):
+            return None
+        v = 1.0
+        for pre, atom, e in toks:
+            v *= (pre ** (1 if e > 0 else -1)) * k(atom) ** e
+        return v
+
+    P = amount(sym)
+    if P is None:
+        return {"reproduced": False, "note": "symbol does not decompose natively"}
+    cT = amount(base) or 1.0
+    got = k(sym) * cT
+    rel = abs(got - P) / abs(P)
+    return {"reproduced": bool(rel > 1e-7), "call": "Scalar(1, %r) in base units of %r vs the product of its component units" % (sym, qt), "observed": got, "expected": P, "relative_difference": rel}
